@@ -11,6 +11,7 @@ package main
 // the oracle compares what the three clients observe.
 
 import (
+	"context"
 	"crypto/sha256"
 	"encoding/base32"
 	"encoding/base64"
@@ -334,6 +335,25 @@ func stubRespond(req *dns.Msg) *dns.Msg {
 		o.SetUDPSize(1232)
 		o.Option = append(o.Option, &dns.EDNS0_EDE{InfoCode: dns.ExtendedErrorCodeStaleAnswer, ExtraText: "upstream says stale"})
 		m.Extra = append(m.Extra, o)
+	case "cnr":
+		// alias onto terminals whose RDATA holds names the packer compresses
+		m.Answer = append(m.Answer, &dns.CNAME{Hdr: dns.RR_Header{Name: owner, Rrtype: dns.TypeCNAME, Class: q.Qclass, Ttl: 200}, Target: under("rtg", restOf(q.Name))})
+	case "rtg":
+		h := func(t uint16) dns.RR_Header { return dns.RR_Header{Name: owner, Rrtype: t, Class: q.Qclass, Ttl: 300} }
+		switch q.Qtype {
+		case dns.TypePTR:
+			m.Answer = append(m.Answer, &dns.PTR{Hdr: h(dns.TypePTR), Ptr: under("alpha.hosts", zone)}, &dns.PTR{Hdr: h(dns.TypePTR), Ptr: under("beta.hosts", zone)})
+		case dns.TypeMX:
+			m.Answer = append(m.Answer, &dns.MX{Hdr: h(dns.TypeMX), Preference: 10, Mx: under("mx1", zone)}, &dns.MX{Hdr: h(dns.TypeMX), Preference: 20, Mx: under("mx2", zone)})
+		case dns.TypeNS:
+			m.Answer = append(m.Answer, &dns.NS{Hdr: h(dns.TypeNS), Ns: under("ns1", zone)}, &dns.NS{Hdr: h(dns.TypeNS), Ns: under("ns2", zone)})
+		case dns.TypeSRV:
+			m.Answer = append(m.Answer, &dns.SRV{Hdr: h(dns.TypeSRV), Priority: 1, Weight: 2, Port: 53, Target: under("srv", zone)})
+		case dns.TypeSOA:
+			m.Answer = append(m.Answer, soaFor(owner, 300))
+		default:
+			addr()
+		}
 	case "cnb":
 		// alias onto a terminal that does not fit a 512-octet buffer: the composed reply
 		// passes the walk and fails the size gate
@@ -487,6 +507,13 @@ var slabs [4]*server.VerifJob // 0 ServeRaw, 2 ServeRawInline(+Replay), 3 warm-u
 
 var poisonByte byte = 0xFF
 
+// serveAge: how long ago the transport read the packet the measured serves are about to
+// handle (a packet can wait in an engine's queue). Past the query timeout every ingress
+// must drop it unanswered and uncharged.
+var serveAge time.Duration
+
+func readTime() time.Time { return time.Now().Add(-serveAge) }
+
 func slab(i int, remote net.Addr) *server.VerifJob {
 	if slabs[i] == nil {
 		slabs[i] = &server.VerifJob{}
@@ -501,7 +528,7 @@ func slab(i int, remote net.Addr) *server.VerifJob {
 // rawOn is srvh.Live.Raw on a reused, poisoned job slab.
 func rawOn(i int, pkt []byte, remote net.Addr) ([][]byte, bool, bool) {
 	j := slab(i, remote)
-	handled := live.Srv.ServeRaw(j, pkt, time.Now())
+	handled := live.Srv.ServeRaw(j, pkt, readTime())
 	return j.Writes, handled, j.VerifTookStrict()
 }
 
@@ -509,13 +536,13 @@ func rawOn(i int, pkt []byte, remote net.Addr) ([][]byte, bool, bool) {
 func rawInlineOn(i int, pkt []byte, remote net.Addr) (writes [][]byte, inlineHandled, replayed bool) {
 	j := slab(i, remote)
 	if !live.Srv.InlineReady() {
-		live.Srv.ServeRaw(j, pkt, time.Now())
+		live.Srv.ServeRaw(j, pkt, readTime())
 		return j.Writes, false, false
 	}
-	inlineHandled = live.Srv.ServeRawInline(j, pkt, time.Now())
+	inlineHandled = live.Srv.ServeRawInline(j, pkt, readTime())
 	if !inlineHandled {
 		replayed = true
-		live.Srv.ServeRawReplay(j, pkt, time.Now())
+		live.Srv.ServeRawReplay(j, pkt, readTime())
 	}
 	return j.Writes, inlineHandled, replayed
 }
@@ -543,6 +570,14 @@ func serve(path int, pkt []byte, remote net.Addr, proto string) reply {
 		m := new(dns.Msg)
 		if err := m.Unpack(pkt); err != nil {
 			return reply{class: "undecodable"}
+		}
+		if serveAge > 0 {
+			// the decoded entry has no read time: its caller's context carries the budget
+			ctx, cancel := context.WithDeadline(context.Background(), readTime().Add(live.Cfg.QueryTimeout.Duration))
+			defer cancel()
+			w := &srvh.MsgWriter{Remote: remote, ProtoS: proto}
+			live.Srv.ServeMsg(ctx, w, m)
+			return fromMsgWriter(w)
 		}
 		return fromMsgWriter(live.Msg(m, remote, proto)) // settle: deferred
 	default:
@@ -1046,6 +1081,9 @@ func execQ(a map[string]string) vlib.Res {
 	var sent [3][]sentInfo
 	var calls [3]int64
 	inlineBlocked := false
+	if ageMs := atoiD(a["age"], 0); ageMs > 0 {
+		serveAge = time.Duration(ageMs) * time.Millisecond
+	}
 	for _, p := range order {
 		c0 := live.Stub.Calls.Load()
 		var prev []byte
@@ -1070,6 +1108,7 @@ func execQ(a map[string]string) vlib.Res {
 		calls[p] = live.Stub.Calls.Load() - c0
 	}
 
+	serveAge = 0
 	// follow-up observation: the plain question again, through ServeRaw, for each name
 	var fcalls [3]int64
 	var freplies [3]reply
@@ -1158,7 +1197,7 @@ func execQ(a map[string]string) vlib.Res {
 	if len(replies[2]) > 0 {
 		dist = append(dist, "first:"+replies[2][0].inline+":"+replies[2][0].class)
 	}
-	for _, kvp := range [][2]string{{"cut", a["cut"]}, {"fail", a["fail"]}, {"mix", a["mix"]}, {"nsec3", a["nsec3"]}, {"starve", a["starve"]}} {
+	for _, kvp := range [][2]string{{"cut", a["cut"]}, {"fail", a["fail"]}, {"mix", a["mix"]}, {"nsec3", a["nsec3"]}, {"starve", a["starve"]}, {"age", a["age"]}} {
 		if kvp[1] != "" {
 			dist = append(dist, kvp[0]+":"+kvp[1])
 		}
